@@ -282,7 +282,22 @@ def run_stream(p, xs, resets=(), seed=0):
     epoch = []       # samples of the current epoch while the reference window is being collected
     have_ref = False
     none = {"crit": "None", "lo": "None", "hi": "None"}
+    nb = None
+    if p.get("neighbour"):
+        # a second streaming kdq-tree detector of the same configuration (smaller window) lives next to the observed one on an unrelated stream
+        from .core import Neighbour
+        dim = len(xs[0])
+        nbd = KdqTreeStreaming(window_size=max(4, p["window_size"] // 2), persistence=p["persistence"], alpha=p["alpha"], bootstrap_samples=10,
+                               count_ubound=p["count_ubound"], cutpoint_proportion_lbound=lb)
+        cnt = [0]
+
+        def nfeed(o, u):
+            cnt[0] += 1
+            o.update(np.array([[float(int(u * 997 * (j + 2)) % 13 + 40 * ((cnt[0] // 25) % 2)) for j in range(dim)]]))
+        nb = Neighbour(nbd, nfeed, seed)
     for t, x in enumerate(xs):
+        if nb:
+            nb.step()
         if t in resets:
             det.reset()
             epoch, have_ref = [], False
@@ -325,7 +340,20 @@ def run_batch(p, batches, setrefs=(), first_is_reference=True, seed=0, resets=()
         return num(lo), num(hi)
 
     have_tree = False
+    nb = None
+    if p.get("neighbour"):
+        from .core import Neighbour
+        dim = len(batches[0][0])
+        nbd = KdqTreeBatch(alpha=p["alpha"], bootstrap_samples=10, count_ubound=p["count_ubound"], cutpoint_proportion_lbound=lb)
+        cnt = [0]
+
+        def nfeed(o, u):
+            cnt[0] += 1
+            o.update(np.array([[float(int(u * 997 * (i + 3) * (j + 2)) % 17 + 60 * (cnt[0] % 2)) for j in range(dim)] for i in range(24)]))
+        nb = Neighbour(nbd, nfeed, seed)
     for t, b in enumerate(batches):
+        if nb:
+            nb.step()
         if t in resets and t > 0:
             det.reset()
             have_tree, prev = False, None
